@@ -3,16 +3,32 @@ package faults
 import (
 	"fmt"
 	"math/rand"
+	"strings"
 	"testing"
 	"testing/synctest"
+	"time"
 
 	"verif/harness/ev"
 )
 
+// inBubble runs f inside a synctest bubble under a generous wall-clock watchdog. A goroutine blocked on a sync
+// mutex is not "durably blocked" for synctest, so a leaked lock would otherwise hang the run: these cases are
+// single-threaded and deterministic and normally take milliseconds, so a case that does not finish within the
+// watchdog twice in a row is reported as a deadlock witness.
 func inBubble(t *testing.T, f func()) (panicked any) {
-	defer func() { panicked = recover() }()
-	synctest.Test(t, func(t *testing.T) { f() })
-	return nil
+	for attempt := 0; attempt < 2; attempt++ {
+		done := make(chan any, 1)
+		go func() {
+			defer func() { done <- recover() }()
+			synctest.Test(t, func(t *testing.T) { f() })
+		}()
+		select {
+		case p := <-done:
+			return p
+		case <-time.After(45 * time.Second):
+		}
+	}
+	return "deadlock: the case did not finish within 45 s of wall clock on two attempts (a lock is never released?)"
 }
 
 type cell struct {
@@ -41,6 +57,7 @@ func cells(cfgs, ops []string) []cell {
 func explore(t *testing.T, r *ev.Run, prop string, cs []cell, domains map[string]bool, pairPct int) {
 	triplePct := ev.Pick(0, 35)
 	rng := rand.New(rand.NewSource(ev.Seed()))
+	deadlocks := 0
 	pick := func(res result) []verdict {
 		switch prop {
 		case "C02":
@@ -55,7 +72,13 @@ func explore(t *testing.T, r *ev.Run, prop string, cs []cell, domains map[string
 	run := func(c cell, fs []fault) (result, bool) {
 		var res result
 		journal(fmt.Sprintf("%s scenario=%s cfg=%s op=%s faults=%v", prop, c.sc.name, c.cfg, c.op, fs))
+		if deadlocks >= 2 {
+			return res, false // the tree under test leaks locks: do not spend 90 s on every further case
+		}
 		if p := inBubble(t, func() { res = execute(c.sc, c.cfg, c.op, fs) }); p != nil {
+			if s, ok := p.(string); ok && strings.HasPrefix(s, "deadlock") {
+				deadlocks++
+			}
 			r.Violation("panic:"+c.sc.name, fmt.Sprintf("scenario=%s cfg=%s op=%s faults=%v: panic/deadlock: %v", c.sc.name, c.cfg, c.op, fs, p),
 				map[string]any{"scenario": c.sc.name, "config": c.cfg, "op": c.op, "faults": fs})
 			return res, false
